@@ -28,7 +28,7 @@ Proof.
   - (* a script on a build root *)
     destruct o; try discriminate.
     destruct items as [its|].
-    + repeat (apply andb_true_iff in Hwf as [Hwf ?]).
+    + repeat match goal with H : _ && _ = true |- _ => apply andb_true_iff in H as [? ?] end.
       match goal with H : list_beq beq _ _ = true |- _ => apply lines_eq in H; subst lines end.
       assert (Hnk : no_kf its = true).
       { unfold no_kf. destruct (existsb _ its); [discriminate|reflexivity]. }
@@ -42,7 +42,7 @@ Proof.
   - (* a recipe file *)
     destruct o; try discriminate.
     destruct items as [its|].
-    + repeat (apply andb_true_iff in Hwf as [Hwf ?]).
+    + repeat match goal with H : _ && _ = true |- _ => apply andb_true_iff in H as [? ?] end.
       match goal with H : list_beq beq _ _ = true |- _ => apply lines_eq in H; subst lines end.
       pose proof (recipe_spec_holds env cmd its) as Hs.
       destruct (list_system env cmd (map ritem_render its)); cbn [recipe_obs recipe_res N.eqb];
